@@ -102,19 +102,20 @@ def dig_arg(obj):
     return dig(obj)
 
 
-def arrays_in(obj, out=None):
-    """the ndarrays reachable from an argument / result (the objects themselves, not copies)"""
+def arrays_in(obj, out=None, values_only=False):
+    """the ndarrays reachable from an argument / result (the objects themselves, not copies); values_only: of a Spectrum only the
+    value array (the wavelength grid of a scalar operation is shared with the operand by design)"""
     out = [] if out is None else out
     if isinstance(obj, np.ndarray):
         out.append(obj)
     elif isinstance(obj, (list, tuple)):
         for o in obj:
-            arrays_in(o, out)
+            arrays_in(o, out, values_only)
     elif isinstance(obj, dict):
         for o in obj.values():
-            arrays_in(o, out)
+            arrays_in(o, out, values_only)
     elif hasattr(obj, 'wave') and hasattr(obj, 'value') and hasattr(obj, 'waveunit'):
-        out += [a for a in (obj.wave, obj.value) if isinstance(a, np.ndarray)]
+        out += [a for a in ((obj.value,) if values_only else (obj.wave, obj.value)) if isinstance(a, np.ndarray)]
     elif hasattr(obj, 'data') and isinstance(getattr(obj, 'data'), list):
         for f in obj.data:
             if isinstance(f.data, np.ndarray):
@@ -142,7 +143,7 @@ def refillable(x, y):
 
 # ---------------------------------------------------------------------------------------------------------------- harness
 class Op:
-    def __init__(self, name, props, fn, base, alts=None, bad=None, writes=(), alias_ok=True, norefill=(), rng=False, invariant=None):
+    def __init__(self, name, props, fn, base, alts=None, bad=None, writes=(), alias_ok=True, norefill=(), rng=False, invariant=None, consumes=False):
         self.name, self.props, self.fn, self.base = name, set(props), fn, base
         self.alts = alts or {}
         self.bad = bad or []
@@ -150,6 +151,7 @@ class Op:
         self.alias_ok = alias_ok
         self.norefill = set(norefill)
         self.rng = rng
+        self.consumes = consumes            # an argument is a one-shot iterable: the same objects cannot be passed twice
         self.invariant = invariant          # optional: result -> None, or a message saying what the result contradicts
 
     def variants(self):
@@ -238,32 +240,41 @@ def chk_case(case, acc, seed):
                               f'the result of {o.name}({va[0]}), held by the caller, changed when {o.name}({vb[0]}) ran')
             return
         if mode == 'edit':
-            base = o.variants()[0]
-            cold, _ = _cold(o, seed, base)
+            v = variant_by_name(o, case.get('variant', 'base'))
+            cold, _ = _cold(o, seed, v)
             engine.reset_library_state()
             np.random.seed(4242)
-            args = o.args(seed, base)
-            d_args = {k: dig_arg(v) for k, v in args.items()}
+            args = o.args(seed, v)
+            d_args = {k: dig_arg(x) for k, x in args.items()}
             r = _call(o, args)
             edited = 0
-            for a in arrays_in(r):
-                if a.ndim >= 1 and a.size > 0 and not any(a is x for x in arrays_in(list(args.values()))):
+            arg_arrays = arrays_in(list(args.values()))
+            for a in arrays_in(r, values_only=True):
+                if a.ndim >= 1 and a.size > 0 and (not o.alias_ok or not any(a is x for x in arg_arrays)):
                     try:
                         a[...] = 7
                         edited += 1
                     except (ValueError, TypeError):
                         pass
-            if not o.alias_ok and edited:
-                ch = [k for k in d_args if dig_arg(args[k]) != d_args[k] and k not in o.writes]
-                if ch:
-                    acc.violation(f'{key}:result-shares-memory-with-argument:{ch[0]}', case,
-                                  f'editing the result of {o.name} in place changed its argument(s) {ch}: the result is not a new object')
+            ch = [k for k in d_args if dig_arg(args[k]) != d_args[k] and k not in o.writes]
+            if not o.alias_ok and edited and ch:
+                acc.violation(f'{key}:result-shares-memory-with-argument:{ch[0]}', case,
+                              f'editing the result of {o.name}({v[0]}) in place changed its argument(s) {ch}: the result is not a new object')
+                return
+            if not o.writes and not ch and not o.consumes:
+                # the very same argument objects again: a query answers for its arguments as they are, whatever the caller did to
+                # the previous answer
+                np.random.seed(4242)
+                r1 = _call(o, args)
+                if dig(r1) != cold:
+                    acc.violation(f'{key}:not-repeatable-after-result-edit:same-arguments', case,
+                                  f'after the caller edited the result of {o.name}({v[0]}) in place, the same call on the same argument objects returns something else')
             np.random.seed(4242)
-            args2 = o.args(seed, base)
+            args2 = o.args(seed, v)
             r2 = _result(o, _call(o, args2), args2)
             if dig(r2) != cold:
                 acc.violation(f'{key}:not-repeatable-after-result-edit', case,
-                              f'after the caller edited the result of {o.name} in place, the identical call on fresh arguments returns something else')
+                              f'after the caller edited the result of {o.name}({v[0]}) in place, the identical call on fresh arguments returns something else')
             return
         if mode == 'refill':
             p, k = case['param'], case['k']
@@ -383,7 +394,8 @@ def t_callhist(arg, acc):
             acc.transitions += 1
             chk_case(dict(case0, mode='pair', first=va[0], second=vb[0]), acc, seed)
     acc.cls('history:pairs', len(V) * len(V))
-    chk_case(dict(case0, mode='edit'), acc, seed)
+    for v in V:
+        chk_case(dict(case0, mode='edit', variant=v[0]), acc, seed)
     chk_case(dict(case0, mode='frozen'), acc, seed)
     nref = 0
     for p in sorted(o.alts):
